@@ -2,6 +2,7 @@ package main
 
 import (
 	"crypto/tls"
+	"crypto/x509"
 	"bytes"
 	"encoding/binary"
 	"encoding/json"
@@ -30,7 +31,7 @@ func init() {
 			"deleted, duplicated, swapped, child lists truncated/extended/reversed, class/tag/constructed-bit flipped, 14 length-octet corruptions), double-point mutations (sampled in quick; complete within " +
 			"the controls subtree and the protocolOp subtree in thorough), (b) seeded random byte streams, byte-level mutations and splices of canonical encodings, two frames on one connection and hostile frames behind a valid Bind on the same connection, well-formed canonical requests with lists of 8/9/16/17/33 elements, and a dictionary of 36 contents (attribute options, case-mapping-sensitive bytes, wildcards, escapes, NULs, invalid UTF-8) in every string position of the control-less canonical requests (plus Go native coverage-guided fuzzing in thorough). " +
 			"Each input is delivered through the in-memory decode hook, over TCP to servers with panic recovery enabled, logging at Error and at Debug level (oracle: 'Caught panic' log record) and over TCP to a server with recovery disabled " +
-			"(oracle: process death). distinct_nontrivial = distinct inputs (by content hash) that got past basicValidation, i.e. were decoded by gldap's own request decoder",
+			"(oracle: process death). A further phase ends the reading of a request by a fault instead of by bytes: every canonical request cut at a spread of offsets (thorough: every offset), then the server's read timeout, a reset, a FIN or a Stop; on TLS listeners also handshakes the client aborts with a fatal alert (it does not trust the CA, no common version), silent and half-said ClientHellos, and a fatal alert / a record of garbage / a reset in the middle of a frame inside an established session (oracle: no 'Caught panic' record). distinct_nontrivial = distinct inputs (by content hash) that got past basicValidation, i.e. were decoded by gldap's own request decoder",
 		Assume: []string{"a panic whose stack has no gldap frame above the runtime (e.g. stack exhaustion inside asn1-ber) is outside 'gldap's own' decoding and is reported as inconclusive",
 			"declared lengths above 16 MiB are not generated/fed (asn1-ber allocates the declared length up front)"},
 		Phases: func(tier string, seed int64) []Phase {
@@ -39,6 +40,7 @@ func init() {
 				{Name: "tcp-recover", Run: c02TCPRecover},
 				{Name: "tcp-recover-debuglog", Run: func(c *Ctx) { c02DebugServers = true; c02TCPRecover(c) }},
 				{Name: "plaintext-to-tls-listener", Run: func(c *Ctx) { c02TLSListener = true; c02TCPRecover(c) }},
+				{Name: "read-faults", Run: c02ReadFaults},
 				{Name: "tcp-norecover", Run: c02TCPNoRecover, Crash: c02Crash},
 			}
 			if tier == "thorough" {
@@ -46,7 +48,7 @@ func init() {
 			}
 			return ps
 		},
-		MinObserved: []string{"inputs", "inputs_tcp_recover", "inputs_tcp_norecover", "reached_decodeControl", "inputs_tcp_recover_debug_level_logger", "inputs_sent_in_plaintext_to_a_tls_listener"},
+		MinObserved: []string{"inputs", "inputs_tcp_recover", "inputs_tcp_norecover", "reached_decodeControl", "inputs_tcp_recover_debug_level_logger", "inputs_sent_in_plaintext_to_a_tls_listener", "reads_ended_by_a_fault"},
 	})
 }
 
@@ -504,6 +506,197 @@ func c02TCPInputs(c *Ctx) []c02Input {
 		out = append(out, c02Input{"after-valid-bind|" + out[i].Name, append(append([]byte{}, prefix...), out[i].In...)})
 	}
 	return out
+}
+
+// c02ReadFaults: the reading of a request does not only end by bytes. Every canonical request is cut at every offset
+// (quick: a spread of offsets) and the read is then ended by a fault instead of the missing bytes: the server's read
+// timeout, a reset, a bare FIN, a Stop; on a TLS listener also a handshake that the client aborts with a fatal alert,
+// a fatal alert in the middle of a frame and a record of garbage in the middle of a frame. Whatever error that produces
+// goes down "the ordinary error path": no panic is caught by the connection-level recovery.
+func c02ReadFaults(c *Ctx) {
+	pki := newPKI()
+	var frames [][]byte
+	seen := map[string]bool{}
+	for _, cn := range canonicals() {
+		op := strings.SplitN(cn.Name, "|", 2)[0]
+		op = strings.SplitN(op, "/", 2)[0]
+		if seen[op] && len(frames) >= 12 {
+			continue
+		}
+		seen[op] = true
+		frames = append(frames, cn.Tree.Encode())
+	}
+	type kase struct {
+		fault string
+		cut   []byte
+	}
+	var plain, overTLS []kase
+	for fi, f := range frames {
+		step := 1
+		if c.Quick() {
+			step = 1 + len(f)/6
+		}
+		for off := 1; off < len(f); off += step {
+			fault := []string{"read-timeout", "reset", "fin", "read-timeout"}[(fi+off)%4]
+			plain = append(plain, kase{fault, f[:off]})
+			if (fi+off)%3 == 0 {
+				overTLS = append(overTLS, kase{[]string{"fatal-alert", "garbage-record", "read-timeout", "reset"}[(fi+off/3)%4], f[:off]})
+			}
+		}
+	}
+	check := func(srv *Srv, before int, what string, det map[string]any) {
+		c.Count("inputs", 1)
+		c.Count("reads_ended_by_a_fault", 1)
+		c.Distinct("read_faults", what)
+		if srv.Log.PanicCount() > before {
+			ps := srv.Log.Panics()
+			msg := ps[len(ps)-1]
+			pm := msg
+			if i := strings.LastIndex(msg, ": "); i >= 0 {
+				pm = msg[i+2:]
+			}
+			det["log"] = msg
+			c.Violate("panic while a request read ended by a fault: "+normPanic(pm), what+": a panic was caught by the connection-level recovery: "+pm, det)
+		}
+	}
+	mk := func(stc *tls.Config, rt time.Duration) *Srv {
+		rc := &Recorder{}
+		srv, err := startSrv(SrvCfg{TLS: stc, ReadTimeout: rt}, func(m *gldap.Mux) { rc.RegisterAll(m, c01ExtNames) })
+		if err != nil {
+			c.Inconclusive("server start: " + err.Error())
+			return nil
+		}
+		return srv
+	}
+	const rt = 40 * time.Millisecond
+	var wg sync.WaitGroup
+	// ---- plain listener
+	wg.Add(1)
+	go func() {
+		defer wg.Done()
+		srv := mk(nil, rt)
+		if srv == nil {
+			return
+		}
+		defer srv.StopWithin(patience)
+		for _, k := range plain {
+			before, closes := srv.Log.PanicCount(), srv.closeCnt.Load()
+			cn, err := net.Dial("tcp", srv.Addr)
+			if err != nil {
+				c.Inconclusive("dial: " + err.Error())
+				return
+			}
+			cn.Write(k.cut)
+			switch k.fault {
+			case "reset":
+				cn.(*net.TCPConn).SetLinger(0)
+				cn.Close()
+			case "fin":
+				cn.(*net.TCPConn).CloseWrite()
+			}
+			// read-timeout: the client just waits for the server to give up
+			srv.WaitCloses(closes+1, patience)
+			cn.Close()
+			check(srv, before, "plain/"+k.fault, map[string]any{"sent_hex": hx(k.cut), "fault": k.fault})
+		}
+	}()
+	// ---- TLS listener: faults inside an established session
+	wg.Add(1)
+	go func() {
+		defer wg.Done()
+		srv := mk(pki.ServerOnly, rt)
+		if srv == nil {
+			return
+		}
+		defer srv.StopWithin(patience)
+		for _, k := range overTLS {
+			before, closes := srv.Log.PanicCount(), srv.closeCnt.Load()
+			cn, err := net.Dial("tcp", srv.Addr)
+			if err != nil {
+				c.Inconclusive("dial: " + err.Error())
+				return
+			}
+			tc := tls.Client(cn, pki.ClientPlain)
+			cn.SetDeadline(time.Now().Add(patience))
+			if err := tc.Handshake(); err != nil {
+				cn.Close()
+				c.Inconclusive("handshake: " + err.Error())
+				return
+			}
+			tc.Write(k.cut)
+			switch k.fault {
+			case "fatal-alert":
+				cn.Write([]byte{0x15, 0x03, 0x03, 0x00, 0x02, 0x02, 0x28}) // (unprotected) fatal handshake_failure
+			case "garbage-record":
+				cn.Write([]byte{0x17, 0x03, 0x03, 0x00, 0x20})
+				cn.Write(NewRand(uint64(len(k.cut))).Bytes(32))
+			case "reset":
+				cn.(*net.TCPConn).SetLinger(0)
+				cn.Close()
+			}
+			srv.WaitCloses(closes+1, patience)
+			cn.Close()
+			check(srv, before, "tls-session/"+k.fault, map[string]any{"sent_hex": hx(k.cut), "fault": k.fault})
+		}
+	}()
+	// ---- TLS listener: handshakes that the client aborts, and that simply time out
+	wg.Add(1)
+	go func() {
+		defer wg.Done()
+		for _, scfg := range []*tls.Config{pki.ServerOnly, pki.ServerMTLS} {
+			srv := mk(scfg, rt)
+			if srv == nil {
+				return
+			}
+			for i := 0; i < c.N(12, 120); i++ {
+				before, closes := srv.Log.PanicCount(), srv.closeCnt.Load()
+				cn, err := net.Dial("tcp", srv.Addr)
+				if err != nil {
+					c.Inconclusive("dial: " + err.Error())
+					return
+				}
+				what := []string{"client-distrusts-server", "client-offers-no-common-version", "hello-then-silence", "silence"}[i%4]
+				cn.SetDeadline(time.Now().Add(patience))
+				switch what {
+				case "client-distrusts-server":
+					// the ordinary case of a client that does not know the CA: it answers the certificate with a fatal alert
+					tls.Client(cn, &tls.Config{ServerName: "localhost", RootCAs: x509.NewCertPool()}).Handshake()
+				case "client-offers-no-common-version":
+					tls.Client(cn, &tls.Config{InsecureSkipVerify: true, MinVersion: tls.VersionTLS10, MaxVersion: tls.VersionTLS10}).Handshake()
+				case "hello-then-silence":
+					cn.Write([]byte{0x16, 0x03, 0x01, 0x00, 0xc8, 0x01, 0x00, 0x00, 0xc4, 0x03, 0x03})
+				}
+				srv.WaitCloses(closes+1, patience)
+				cn.Close()
+				check(srv, before, "tls-handshake/"+what, map[string]any{"fault": what})
+			}
+			srv.StopWithin(patience)
+		}
+	}()
+	// ---- Stop while a frame is incomplete
+	wg.Add(1)
+	go func() {
+		defer wg.Done()
+		for i := 0; i < c.N(6, 60); i++ {
+			srv := mk(nil, 0)
+			if srv == nil {
+				return
+			}
+			before := srv.Log.PanicCount()
+			f := frames[i%len(frames)]
+			cn, err := net.Dial("tcp", srv.Addr)
+			if err != nil {
+				c.Inconclusive("dial: " + err.Error())
+				return
+			}
+			cn.Write(f[:1+i%(len(f)-1)])
+			time.Sleep(2 * time.Millisecond)
+			srv.StopWithin(patience)
+			cn.Close()
+			check(srv, before, "plain/stop", map[string]any{"fault": "Stop while the frame is incomplete"})
+		}
+	}()
+	wg.Wait()
 }
 
 // c02DebugServers: the servers log at Debug level (gldap then describes every packet it reads - code that runs on the
